@@ -88,7 +88,9 @@ def render_string(rec, variant):
                 out.append(f"<{it['v']}.>" if variant % 2 else f"<{it['v']:o}>")
     if cur or not out:
         out.append(q + cur + q)
-    return "\n".join([".rad50 " + (" " if variant % 4 == 0 else "").join(out)] + defs)
+    # behind a directive that has to wait for its codes stands '.word .': the address of what follows the directive is the address
+    # behind ALL its words (the announced size of the waiting directive is the size of what it finally packs)
+    return "\n".join([".rad50 " + (" " if variant % 4 == 0 else "").join(out)] + ([".word ."] if defs else []) + defs)
 
 
 def run_string(task):
@@ -160,7 +162,7 @@ def main(run):
             if ln in seen:
                 continue
             seen.add(ln)
-            tasks.append((ln, rec["ok"], rec["words"]))
+            tasks.append((ln, rec["ok"], rec["words"] + ([0o1000 + 2 * len(rec["words"])] if "\n.word ." in ln and rec["ok"] else [])))
     for bad in pmap(run_string, tasks):
         if bad is not None:
             run.violation(f"rad50 string: {bad[0]!r} predicted ok={bad[1]} words={bad[2]} but outcome={bad[3]} code={bad[4]} exc={bad[5]} reports={bad[6]}",
